@@ -318,6 +318,9 @@ def run(ctx):
     clean_rule(ctx, syn)
     positional_rule(ctx, syn)
     omit_rule(ctx, syn)
+    # the writers of the root store and of each sub-store pick their members by `*_substore_map.get(handle)`: absence must mean absence
+    from props.c01 import emptyrow_rule
+    emptyrow_rule(ctx, syn, rid="C05.EMPTYROW")
     mir_rules(ctx)
 
 
